@@ -30,7 +30,7 @@ def repo_clean():
 
 def run_isolated(names, jobs):
     import shutil, threading, queue
-    respath = os.path.join(VERIF, "seeded", "results.json")
+    respath = os.environ.get("SEEDED_RESULTS", os.path.join(VERIF, "seeded", "results.json"))
     results = json.load(open(respath)) if os.path.exists(respath) else {}
     q = queue.Queue()
     for n in names:
@@ -122,6 +122,9 @@ def write_md(results):
             else:
                 hows.append("%s: not detected" % p)
         lines.append("| %s | %s | %s | %s | %s |" % (name, r["property"], r["summary"].replace("|", "\\|")[:220], "caught" if r["caught"] else "**missed**", "<br>".join(hows).replace("|", "\\|")))
+    if "SEEDED_RESULTS" in os.environ:
+        open(os.environ["SEEDED_RESULTS"] + ".md", "w").write("\n".join(lines) + "\n")
+        return
     open(os.path.join(VERIF, "seeded", "RESULTS.md"), "w").write("\n".join(lines) + "\n")
     print("written seeded/RESULTS.md")
 
@@ -134,7 +137,7 @@ def main():
         write_md(results)
         return
     names = sys.argv[1:] or sorted(n for n in os.listdir(os.path.join(VERIF, "seeded")) if os.path.isfile(os.path.join(VERIF, "seeded", n, "patch.diff")))
-    respath = os.path.join(VERIF, "seeded", "results.json")
+    respath = os.environ.get("SEEDED_RESULTS", os.path.join(VERIF, "seeded", "results.json"))
     results = json.load(open(respath)) if os.path.exists(respath) else {}
     if not repo_clean():
         print("/repo is not clean; refusing to run")
